@@ -413,3 +413,74 @@ class TTCSaveNeverOpensDestinationBeforeSuccess(Contract):
         and [e[1] for e in a._log if e[0] == "_save"] == [0, 1]
         and len([e for e in a._log if e[0] == "write"]) == 1
         and ("seek-on-destination",) not in a._log))]
+
+
+# -- declared dependencies cover the cross-table writes of compile() -------------------------------------
+
+class _WriteRecorder:
+    """stands for a sibling table: records which attributes a compile() assigns"""
+
+    def __init__(self, tag, log, **attrs):
+        object.__setattr__(self, "_tag", tag)
+        object.__setattr__(self, "_log", log)
+        for k, v in attrs.items():
+            object.__setattr__(self, k, v)
+
+    def __setattr__(self, name, value):
+        self._log.append((self._tag, name))
+        object.__setattr__(self, name, value)
+
+
+@contract
+class DependenciesCoverCrossTableWrites(Contract):
+    """_writeTable compiles the tables a class lists in `dependencies` before the table itself.
+    That order is what makes derived header fields right: hmtx.compile writes
+    hhea.numberOfHMetrics, vmtx.compile writes vhea.numberOfVMetrics, glyf.compile writes
+    loca and maxp.numGlyphs.  Obligation: every table that a metrics / outline compile() WRITES
+    TO declares the writer as one of its dependencies (so it cannot be written out first)."""
+    module = "fontTools.ttLib.tables._h_m_t_x"
+    qualname = "table__h_m_t_x.compile"
+    props = ("C04", "C01", "C16")
+    shadow_mode = "real"
+    variants = ("hmtx", "vmtx", "glyf")
+    level = "PF"
+
+    def args(self, S, variant):
+        from fontTools.ttLib import newTable
+        from contracts._support import FakeFont
+        log = []
+        order = [".notdef", "A", "B"]
+        font = FakeFont(order)
+        font.recalcBBoxes = True
+        font.cfg = type("Cfg", (dict,), {"__missing__": lambda self, k: False})()
+        if variant in ("hmtx", "vmtx"):
+            t = newTable(variant)
+            t.metrics = {g: (500, 10) for g in order}
+            hdr = "hhea" if variant == "hmtx" else "vhea"
+            font.tables[hdr] = _WriteRecorder(hdr, log, numberOfHMetrics=9, numberOfVMetrics=9)
+        else:
+            from fontTools.ttLib.tables._g_l_y_f import Glyph
+            t = newTable("glyf")
+            t.glyphs = {g: Glyph() for g in order}
+            t.glyphOrder = order
+            t.padding = 2
+            font.tables["loca"] = _WriteRecorder("loca", log)
+            object.__setattr__(font.tables["loca"], "set", lambda locations: log.append(("loca", "locations")))
+            font.tables["maxp"] = _WriteRecorder("maxp", log, numGlyphs=0)
+            font.tables["head"] = _WriteRecorder("head", log, indexToLocFormat=0)
+        return dict(self=t, ttFont=font, _log=log, _variant=variant)
+
+    def call(self, f, a):
+        r = type(a.self).compile(a.self, a.ttFont)
+        a._log = list(a._log)
+        return r
+
+    @staticmethod
+    def _post(a):
+        from fontTools.ttLib import getTableClass
+        written = sorted({tag for tag, _ in a._log})
+        if not written:
+            return False          # the scenario is meant to write something (non-vacuity)
+        return all(a._variant in getTableClass(tag).dependencies for tag in written)
+
+    ensures = [prop("every-table-written-to-declares-the-writer-as-dependency", lambda a, old, r: DependenciesCoverCrossTableWrites._post(a))]
